@@ -115,10 +115,19 @@ var rootDefaults = map[string][]string{
 	"contentScriptType": {"application/ecmascript"}, "contentStyleType": {"text/css"},
 }
 
+var reEntityDecl = regexp.MustCompile(`<!ENTITY\s+([A-Za-z_][\w.-]*)\s+(?:"([^"<&]*)"|'([^'<&]*)')\s*>`)
+
 func flatten(src []byte, keepComments bool) ([]node, error) {
 	d := xml.NewDecoder(strings.NewReader(string(src)))
 	d.Strict = true
 	d.CharsetReader = func(label string, input io.Reader) (io.Reader, error) { return input, nil }
+	// general entities declared in the internal subset (the way some editors write styles)
+	d.Entity = map[string]string{}
+	for _, m := range reEntityDecl.FindAllStringSubmatch(string(src), -1) {
+		if _, dup := d.Entity[m[1]]; !dup {
+			d.Entity[m[1]] = m[2] + m[3]
+		}
+	}
 	var out []node
 	skipDepth := 0
 	depth := 0
